@@ -17,6 +17,13 @@ func main() {
 	switch os.Args[1] {
 	case "dump":
 		cmdDump(os.Args[2:])
+	case "layouts":
+		w, err := loadWorld(repoPath())
+		if err != nil {
+			fmt.Fprintln(os.Stderr, err)
+			os.Exit(2)
+		}
+		dumpLayouts(w)
 	case "terms":
 		cmdTerms(os.Args[2:])
 	case "list":
